@@ -612,7 +612,7 @@ func (x *Exec) checkGuards(st *State, fr *Frame, at ssa.Instruction, callee stri
 	if x.TopC == nil {
 		return
 	}
-	for _, cl := range x.TopC.Of("guard") {
+	for _, cl := range append(x.TopC.Of("guard"), x.TopC.Of("guard_if_called")...) {
 		pat := cl.Args[0]
 		if i := strings.LastIndex(pat, "#"); i > 0 {
 			// "callee#k": only the k-th call site (source order) of that callee in the calling function
@@ -648,7 +648,9 @@ func (x *Exec) checkGuards(st *State, fr *Frame, at ssa.Instruction, callee stri
 		}
 		st.callCounts["guard:"+labelOr(cl, pat)]++
 		// cover: the guarded call site must be reachable (a *discharged* V obligation is an alarm)
-		x.emit(st, fr, "V", "reach.guard."+labelOr(cl, mangle(pat)), TFalse, at)
+		if cl.Kind == "guard" {
+			x.emit(st, fr, "V", "reach.guard."+labelOr(cl, mangle(pat)), TFalse, at)
+		}
 		x.emit(st, fr, "F6", "guard."+labelOr(cl, mangle(pat)), t, at)
 		x.guardHits[labelOr(cl, mangle(pat))]++
 	}
